@@ -13,7 +13,7 @@ import re
 from vf.gen import rb as G
 from vf.ref import diff as RD
 from vf.ref import rulebook as RB
-from vf.util import plain
+from vf.util import plain, unplain
 from vf.props import c01
 
 LEVEL = "exploration"
@@ -26,7 +26,7 @@ ASSUMPTIONS = [
     "an unchanged %rewrite unit is absent from the diff by design: the projection law is evaluated modulo such units",
     "order is compared inside %ordered groups only (call_diff_logic concatenates groups)",
 ]
-FLOORS = {"quick": {"diffs_compared": 3000, "moved_entries": 200, "rewrite_units_changed": 50, "text_views_checked": 3000, "self_diffs": 1000, "ignore_case_rulebooks": 400, "acl_diffs_compared": 600, "removals_of_not_deletable_rows": 100, "big_blocks_compared": 120, "diff_worker_runs": 600, "collapsed_device_groups_checked": 1500, "file_diff_texts_checked": 600, "rulebooks_with_global_rules_on_two_levels": 400, "diff_texts_of_several_devices_checked": 1500, "rows_of_ignore_case_rules_spelled_in_another_case": 300, "rulebooks_with_a_specific_rule_bringing_its_own_global_rule": 300, "rows_of_the_specific_rules_global_family": 200},
+FLOORS = {"quick": {"diffs_compared": 3000, "moved_entries": 200, "rewrite_units_changed": 50, "text_views_checked": 3000, "self_diffs": 1000, "ignore_case_rulebooks": 400, "acl_diffs_compared": 600, "removals_of_not_deletable_rows": 100, "big_blocks_compared": 120, "diff_worker_runs": 600, "collapsed_device_groups_checked": 1500, "file_diff_texts_checked": 600, "rulebooks_with_global_rules_on_two_levels": 400, "diff_texts_of_several_devices_checked": 1500, "rows_of_ignore_case_rules_spelled_in_another_case": 300, "rulebooks_with_a_specific_rule_bringing_its_own_global_rule": 300, "rows_of_the_specific_rules_global_family": 200, "deploy_confirmations_checked": 300},
           "thorough": {"diffs_compared": 150000, "moved_entries": 10000, "rewrite_units_changed": 2500, "text_views_checked": 150000, "self_diffs": 50000, "ignore_case_rulebooks": 15000, "acl_diffs_compared": 25000, "removals_of_not_deletable_rows": 4000, "big_blocks_compared": 5000}}
 VENDORS = ["huawei", "h3c", "optixtrans", "cisco", "nexus", "iosxr", "arista", "b4com", "pc", "juniper", "ribbon", "nokia"]
 BRACE = {"juniper", "ribbon", "nokia"}
@@ -591,7 +591,63 @@ def check_big_block(seed, acc):
                       dict(w, expected_entries=sum(1 for _ in RD._walk(rs)), got_entries=sum(1 for _ in RD._walk(gs)), expected_head=rs[:2], got_head=[[e[0], e[1], e[2][:3]] for e in gs[:2]]))
 
 
+def check_deploy_confirmation(seed, acc):
+    """the text the operator confirms before a deploy (Deployer.diff_lines) holds, under each group of devices, the lines formatter.diff gives for
+    their diff - also for lines that the grouping step masks for its own comparison (the cipher of an `snmp-agent ... cipher X ...` line)"""
+    import types as _t
+    from annet import api
+    from annet.annlib.patching import make_diff, strip_unchanged
+    from annet.annlib.netdev.views.hardware import HardwareView
+    from annet.vendors import registry_connector
+    from annet import rulebook
+    from vf import harness_gen as H
+    rng = random.Random(seed)
+    hw = HardwareView("Huawei CE6870", "")
+    fmt = registry_connector.get().match(hw).make_formatter()
+    rb = rulebook.get_rulebook(hw)
+    devs, diffs = [], {}
+    for i in range(rng.randint(1, 3)):
+        c_old, c_new = rng.choice(["AAA", "BBB"]), rng.choice(["CCC", "DDD", "AAA"])
+        old = unplain([["snmp-agent community read cipher %s acl 2000" % c_old, []], ["sysname a%d" % rng.randint(1, 2), []], ["ntp-service unicast-server 1.1.1.1", []]])
+        new = unplain([["snmp-agent community read cipher %s acl 2000" % c_new, []], ["sysname b", []], ["ntp-service unicast-server 1.1.1.1", []]])
+        d_ = H.FakeDevice(hw)
+        d_.hostname, d_.fqdn = "sw%d" % i, "sw%d.x" % i
+        devs.append(d_)
+        diffs[d_] = strip_unchanged(make_diff(old, new, rb, []))
+    dep = api.Deployer(_t.SimpleNamespace(no_ask_deploy=False))
+    dep._collapseable_diffs = dict(diffs)
+    try:
+        lines = dep.diff_lines()
+    except Exception as e:
+        acc.violation("C03/text-exception/%s" % type(e).__name__, "rendering the deploy confirmation raised", {"deploy_confirmation": True, "seed": seed, "error": repr(e)[:300]})
+        return
+    acc.count("deploy_confirmations_checked")
+    acc.case(["confirmation", [RD.canon(norm(x)) for x in diffs.values()]], nontrivial=True)
+    # split into groups: a `= host, host` line, an empty line, the diff lines, an empty line
+    groups, cur = [], None
+    for ln in lines:
+        if ln.startswith("= "):
+            cur = {"hosts": sorted(h.strip() for h in ln[2:].split(",")), "lines": []}
+            groups.append(cur)
+        elif cur is not None and ln != "":
+            cur["lines"].append(ln)
+    # (devices whose diffs differ in a masked cipher only are shown together, under the text of one of them)
+    by_host = {d_.hostname: list(fmt.diff(df)) for d_, df in diffs.items()}
+    for d_ in diffs:
+        if sum(1 for g in groups if d_.hostname in g["hosts"]) != 1:
+            acc.violation("C03/confirmation-text-differs-from-the-diff", "a device is not shown under exactly one group of the confirmation text",
+                          {"deploy_confirmation": True, "seed": seed, "device": d_.hostname, "groups": [g["hosts"] for g in groups]})
+            return
+    for g in groups:
+        if not any(g["lines"] == by_host.get(h) for h in g["hosts"]):
+            acc.violation("C03/confirmation-text-differs-from-the-diff", "the text shown for confirmation under a group of devices is not the rendering of the diff of any of them",
+                          {"deploy_confirmation": True, "seed": seed, "devices": g["hosts"], "shown": g["lines"], "diff_lines": {h: by_host.get(h) for h in g["hosts"]}})
+            return
+
+
 def run_shard(spec, acc):
+    if spec["mode"] == "replay" and spec["witness"].get("deploy_confirmation"):
+        return check_deploy_confirmation(spec["witness"]["seed"], acc)
     if spec["mode"] == "replay" and spec["witness"].get("big"):
         return check_big_block(spec["witness"]["seed"], acc)
     if spec["mode"] == "replay":
@@ -614,6 +670,8 @@ def run_shard(spec, acc):
             check_case(rng.randrange(1 << 48), acc, icase=True)
         if j % 5 == 3:
             check_case(rng.randrange(1 << 48), acc, gnest=True)
+        if j % 10 == 7:
+            check_deploy_confirmation(orng.randrange(1 << 48), acc)
         if j % 5 in (0, 2):
             check_case(orng.randrange(1 << 48), acc, overlap=True)
         if j % 5 == 2:
